@@ -405,15 +405,33 @@ fn sweep(rng: &mut Rng, step: usize, out: &mut dyn Write) {
 
 pub fn generate(thorough: bool, seed: u64, out: &mut dyn Write) {
     let mut rng = Rng::new(seed, "C01");
-    sweep(&mut rng, if thorough { 1 } else { 41 }, out);
+    let mut sweep_buf: Vec<u8> = vec![];
+    sweep(&mut rng, if thorough { 1 } else { 41 }, &mut sweep_buf);
+    let sweep_lines: Vec<&[u8]> = sweep_buf.split(|b| *b == b'\n').filter(|l| !l.is_empty()).collect();
     let (n_arch, n_q) = if thorough { (600, 200) } else { (40, 60) };
+    // interleave the (cheap) sweep cases with the (expensive) random installations so that the
+    // contiguous shards of the check are balanced
+    let per = sweep_lines.len() / n_arch + 1;
+    let mut next = 0usize;
     for i in 0..n_arch {
+        for _ in 0..per {
+            if next < sweep_lines.len() {
+                out.write_all(sweep_lines[next]).unwrap();
+                out.write_all(b"\n").unwrap();
+                next += 1;
+            }
+        }
         let n_paths = match i % 5 {
             0 => rng.range(1, 3),
             1 => rng.range(20, 40),
             _ => rng.range(3, 15),
         } as usize;
         gen_archive(&mut rng, n_paths, n_q, out);
+    }
+    while next < sweep_lines.len() {
+        out.write_all(sweep_lines[next]).unwrap();
+        out.write_all(b"\n").unwrap();
+        next += 1;
     }
 }
 
